@@ -5,7 +5,7 @@ pub struct NewWaiter { pub p: usize }
 impl NewFiber { #[verifier::external_body] pub fn waiter(&self) -> (r: NewWaiter) { NewWaiter { p: 0 } } }
 impl NewWaiter { #[verifier::external_body] pub fn set_waiter(&mut self, f: NewFiber) { } }
 impl Vm {
-  /// Fiber::split(fiber, vm, arg_count): pops the top frame of the current fiber and moves it, with its callee slot and arg_count arguments, to a
+  /// Fiber::split(fiber, vm, arg_count) (its stack-filling statements: splitcopy unit, D38): pops the top frame of the current fiber and moves it, with its callee slot and arg_count arguments, to a
   /// fresh fiber; the current fiber's stack ends just below the callee slot
   #[verifier::external_body]
   pub fn verif_split(&mut self, arg_count: usize) -> (r: NewFiber)
